@@ -113,6 +113,19 @@ def check_case(ctx, case):
         raise Violation(f"C06/{cls}/not-the-mirror-image/{which}",
                         f"enantiomer() vs all chiral descriptors inverted: "
                         f"{d}")
+    # the mirror image is an object of its own: renaming it in place must
+    # leave the original alone (and vice versa)
+    e_ren = None
+    with guard(f"C06/{cls}/enantiomer-for-renaming"):
+        e_ren = g.enantiomer()
+    shift = {a: (a if isinstance(a, int) else 0) + 70001 + k
+             for k, a in enumerate(ma.atoms)}
+    with guard(f"C06/{cls}/rename-the-mirror-image-in-place"):
+        e_ren.relabel_atoms(dict(shift), copy=False)
+    d = snap_diff(snapshot(g, f"C06/{cls}/source"), s0, "exact")
+    if d:
+        raise Violation(f"C06/{cls}/source-modified-through-mirror-image/"
+                        f"{diff_kind(d)}", d)
     with guard(f"C06/{cls}/enantiomer-twice"):
         ee = e.enantiomer()
     d = snap_diff(snapshot(ee, f"C06/{cls}/twice"), s0, "canon")
